@@ -78,7 +78,7 @@ def parseScenario (real : Bool) (toks : List String) : Option Scenario := do
   -- the property's reading of that (PeerReading.lean: `reading`), not one of the harness's own making
   let wireOk : Bool := match kv toks "wire" with
     | none => true
-    | some w => match parseWire w with
+    | some w => match (parseMode (kv toks "mode")).bind fun mode => parseWire mode w with
       | some ws => decide (readWire ws = scripts)
       | none => false
   if I == 0 || !wireOk then none else
